@@ -82,6 +82,25 @@ def variantAt (vs : List Variant) (s : String) : Option Variant :=
 
 -- `declared σ f t j`: j is wire-shaped for type t and contains only declared members. Where `de`
 -- rejects the document anyway the answer is irrelevant (`true`). Untagged enums are outside.
+-- Conjuncts (each is used by `C03.rt_contains`, Proofs/C03Contain.lean):
+-- * `serde_json::Value`: every object inside the document has pairwise distinct keys (`wfJ`) — the
+--   document is handed back as is, and `contained` looks members up by key.
+-- * Option / Box / newtype: transparent (null is fine at an Option).
+-- * Vec / set / array / tuple: every element is declared at its element type.
+-- * map: no repeated key (a repeated key is overwritten in the map), every value declared.
+-- * struct (`declaredStruct`): an object (not the positional array form serde also reads), no repeated
+--   key, every key is the wire name of a property and its value is declared at the property's type.
+--   An undeclared member is read and dropped when `deny_unknown_fields` is absent.
+-- * externally tagged enum: the string form, or an object with exactly one member `{"V": body}` whose
+--   body is declared for the variant — and V is *not* a data-less variant: serde reads `{"V": null}`
+--   as the unit variant V but writes `"V"`; `prune {"V": null}` = `{}` is not contained in a string
+--   (`{"V": null}` is not schema-valid for the generated type's schema either).
+-- * internally tagged enum: no repeated key; the members other than the tag are the declared members
+--   of the struct variant (none for a data-less variant).
+-- * adjacently tagged enum: no repeated key, no member other than tag and content; the content is
+--   declared for the variant.
+-- * variant bodies (`declaredBody`): newtype variant → the type; tuple variant → element-wise;
+--   struct variant → `declaredStruct`; data-less → nothing to ask.
 mutual
 def declared (σ : Space) : Nat → Id → Json → Bool
   | 0, _, _ => false
@@ -108,6 +127,7 @@ def declared (σ : Space) : Nat → Id → Json → Bool
            (match j with
             | .obj [(k, body)] =>
               (match variantAt variants k with
+               | some ⟨_, _, .simple⟩ => false
                | some v => declaredBody σ f v.details body
                | none => true)
             | .obj _ => false
